@@ -123,6 +123,43 @@ pub fn case(t: &[u8], refs: &Refs, out: &mut Vec<Violation>) -> u64 {
 				}
 			}
 		}
+		if let Ok(s) = std::str::from_utf8(t) {
+			let js = serde_json::to_string(s).unwrap();
+			let de_owned = serde_json::from_str::<DataUrlBuf>(&js);
+			if de_owned.is_ok() != verdict {
+				probs.push(("route:serde(owned)".into(), format!("deserialisation {} vs DataUrl::new {}", de_owned.is_ok(), verdict)));
+			}
+			if js.len() == s.len() + 2 {
+				let de_b = serde_json::from_str::<&DataUrl>(&js);
+				if de_b.is_ok() != verdict {
+					probs.push(("route:serde(borrowed)".into(), format!("deserialisation {} vs DataUrl::new {}", de_b.is_ok(), verdict)));
+				}
+			}
+			if let Ok(d) = &de_owned {
+				if serde_json::to_string(d).ok().as_deref() != Some(js.as_str()) || serde_json::to_string(d.as_data_url()).ok().as_deref() != Some(js.as_str()) {
+					probs.push(("serde:serialise".into(), "serialisation differs from the JSON string of the text".into()));
+				}
+			}
+			// the parts parser used on its own, on accepted values only: the statement says nothing
+			// about it elsewhere (it panics on some non-ASCII text that no constructor lets through;
+			// see DESIGN.md, "observations outside the properties")
+			if verdict {
+				let pp = iref::uri::data::DataUrlPartsRef::parse(s);
+				match (&pp, DataUrl::new(t)) {
+					(Some(p), Ok(d)) => {
+						if *p != d.parts() {
+							probs.push(("DataUrlPartsRef::parse".into(), "differs from parts()".into()));
+						}
+					}
+					_ => probs.push(("DataUrlPartsRef::parse".into(), "None for an accepted data URL".into())),
+				}
+			}
+			if let Err(e) = <&DataUrl>::try_from(s) {
+				if e.0 != s {
+					probs.push(("error-payload(&str)".into(), format!("{:?}", e.0)));
+				}
+			}
+		}
 		if verdict {
 			if !uri_ok {
 				probs.push(("accepted-non-uri".into(), "accepted a text that is not a valid URI".into()));
